@@ -139,6 +139,36 @@ def ini_text(d, section):
     return "\n".join(lines) + "\n"
 
 
+def same_number_other_type(chk):
+    """ContextLife's Update replaces the given keys: a value that is numerically equal to the one in force but of another type
+    (vary_rounds 1 = one round, 1.0 = 100 %) is a different setting and must take effect, by every route"""
+    from passlib.context import CryptContext
+    for key in ("sha256_crypt__vary_rounds", "all__vary_rounds", "vary_rounds"):
+        for old_v, new_v in ((1, 1.0), (1.0, 1)):
+            for route in ("kwds", "dict", "load-dict", "text"):
+                chk.evaluations += 1
+                chk.count(("same-number", key, str(old_v), route))
+                chk.action("same-number-other-type")
+                try:
+                    ctx = CryptContext(schemes=["sha256_crypt", "md5_crypt"], sha256_crypt__default_rounds=3000, **{key: old_v})
+                    if route == "kwds":
+                        ctx.update(**{key: new_v})
+                    elif route == "dict":
+                        ctx.update({key: new_v})
+                    elif route == "load-dict":
+                        ctx.load({key: new_v}, update=True)
+                    else:
+                        ctx.update(f"[passlib]\n{key} = {new_v}\n")
+                    v = ctx.handler("sha256_crypt").vary_rounds
+                    fresh = CryptContext(schemes=["sha256_crypt", "md5_crypt"], sha256_crypt__default_rounds=3000, **{key: new_v})
+                    got = (type(v).__name__, v, ctx.to_dict() == fresh.to_dict())
+                except Exception as ex:
+                    got = f"{type(ex).__name__}: {ex}"[:100]
+                if got != (type(new_v).__name__, new_v, True):
+                    chk.violation(f"update:same-number-other-type:{route}", f"context with {key}={old_v!r} updated ({route}) with {key}={new_v!r}: hasher vary_rounds / same export as a fresh context = {got}",
+                                  {"key": key, "old": repr(old_v), "new": repr(new_v), "route": route})
+
+
 MARKERS = ["!%locked%", "*%", "!a%%b", "!%(here)s", "!x;y", "!#x", "!a=b", "!a:b", "*\xe9\u20ac", "!100%", "*[x]"]
 
 
@@ -448,6 +478,7 @@ def run(chk):
                                         "patch": render(s["patch"]["cfg"], None, has_schemes=s["patch"]["hasSchemes"])} for s in behs[0][:4]]})
     chk.extra["behaviours"] = len(behs)
     string_options(chk)
+    same_number_other_type(chk)
     chk.assumptions += ["the fault-injection handler 'faulty' is registered with passlib's registry for the duration of the check (no /repo change)",
                         "percent vary_rounds are limited to whole percents (INI export keeps two decimals)"]
 
